@@ -156,6 +156,25 @@ func (w *Worker) fixture(be int, curve ecc.ID, slot int, feat GenFeat, withKeys 
 	if err := add(in, 0); err != nil {
 		return nil, err
 	}
+	// a second kind of invalid witness: a scaled boolean that is not boolean any more
+	for _, op := range p.Ops {
+		if op.Kind == opBoolScaled {
+			in3 := make([]*big.Int, len(in))
+			for i := range in {
+				in3[i] = new(big.Int).Set(in[i])
+			}
+			in3[op.A] = big.NewInt(1)
+			if !p.ValidInputs(in3, q) && p.divisionsDefined(in3, q) {
+				a := p.Assign(in3, q, -1)
+				if full, err := frontend.NewWitness(a, q); err == nil {
+					if pub, err := full.Public(); err == nil {
+						fx.Wits = append(fx.Wits, wit{Valid: false, Full: full, Pub: pub, In: in3})
+					}
+				}
+			}
+			break
+		}
+	}
 	if withKeys {
 		if err := fx.setup(); err != nil {
 			return nil, err
